@@ -220,6 +220,7 @@ RangeText(ed, beg, end) == JoinLines(SubSeq(Lines(ed), beg + 1, Min2(end, NLines
 (* the lines of [beg, end) that exist, each with its newline *)
 PrintRange(ed, beg, end) == LET cnt == Min2(end, NLines(ed)) - beg IN
                             IF cnt <= 0 THEN <<>> ELSE [i \in 1..cnt |-> Lines(ed)[beg + i] \o <<NL>>]
+UpperLine(l) == [i \in 1..Len(l) |-> IF l[i] >= 97 /\ l[i] <= 122 THEN l[i] - 32 ELSE l[i]]
 Fail(ed) == [ed EXCEPT !.ret = 1]
 Ok(ed)   == [ed EXCEPT !.ret = 0]
 ClampRow(r, n) == Max2(0, Min2(n - 1, r))     \* the current line never becomes negative
@@ -341,6 +342,24 @@ ExStep(ed0, c) ==
            [ed0 EXCEPT !.lb = lb, !.ret = lb.ret,
                        !.marks = IF lb.ret = 0 THEN [m \in DOMAIN ed0.marks |-> [ed0.marks[m] EXCEPT !.solid = FALSE, !.known = FALSE]]
                                  ELSE ed0.marks]
+      [] k = "r" ->        \* :r file - c.file = <<>>: no such file, <<lines>>: its lines; they go after the last addressed line
+           LET r == Region(ed0, c.loc)  ed == r.ed  n == NLines(ed) IN
+           IF ~r.ok \/ c.file = <<>> THEN Fail(ed)
+           ELSE LET pos == IF n > 0 THEN r.end ELSE 0
+                    ed1 == EdEdit(ed, c.file[1], TRUE, pos, pos)
+                IN Ok([ed1 EXCEPT !.row = Max2(0, r.end + NLines(ed1) - n - 1)])
+      [] k = "!" ->        \* :range!filter with the option writeany set; the filter of the scripts maps a-z to A-Z.
+                           \* The addressed lines are replaced by the filter's output; the current line stays.
+           LET r == Region(ed0, c.loc)  ed == r.ed IN
+           IF ~r.ok THEN Fail(ed)
+           ELSE Ok(EdEdit(ed, [i \in 1..(Min2(r.end, NLines(ed)) - r.beg) |-> UpperLine(Lines(ed)[r.beg + i])], TRUE, r.beg, r.end))
+      [] k = "@" ->        \* :range@r - the commands held by register r run as a command line of their own (with its own
+                           \* command boundary), the current line first set to the start of the range
+           LET g == RegGet(ed0.regs, c.reg) IN
+           IF ~g.has THEN Fail(ed0)
+           ELSE LET r == Region(ed0, c.loc)  ed == r.ed IN
+                IF ~r.ok THEN Fail(ed)
+                ELSE LET e2 == ExRun([ed EXCEPT !.row = r.beg], c.cmds) IN [e2 EXCEPT !.lb = Lb!Bump(e2.lb)]
       [] k = "se" -> Ok([ed0 EXCEPT !.ic = c.val])        \* :se ic / :se noic
 
 (* one line typed at the prompt: ex_command() = ex_exec() + the command boundary (lbuf_modified) *)
@@ -383,6 +402,9 @@ CmdStr(c) ==
       [] k = "s"  -> LocStr(c.loc) \o <<115, 47>> \o Delimited(c.re, 47) \o <<47>> \o Delimited(c.rep, 47) \o <<47>>
                      \o (IF c.g THEN <<103>> ELSE <<>>)
       [] k \in {"g", "v"} -> LocStr(c.loc) \o (IF k = "g" THEN <<103>> ELSE <<118>>) \o <<47>> \o Delimited(c.re, 47) \o <<47>> \o CmdsStr(c.cmds)
+      [] k = "r"  -> LocStr(c.loc) \o <<114, 32>> \o c.name
+      [] k = "!"  -> LocStr(c.loc) \o <<33, 116, 114, 32, 97, 45, 122, 32, 65, 45, 90>>          \* !tr a-z A-Z
+      [] k = "@"  -> LocStr(c.loc) \o <<64, c.reg>>
       [] k = "u"  -> <<117>>
       [] k = "redo" -> <<114, 101, 100, 111>>
       [] k = "null" -> LocStr(c.loc)
